@@ -1,6 +1,6 @@
 """C09 — block verdicts are truthful: no leaked window, idle spin, or misdirected wait."""
 from ..common import *
-from ..mir import peel, walk, show, self_field_path, same_expr
+from ..mir import peel, walk, show, self_field_path, same_expr, E
 from .. import effects
 
 READ_BUF = {"stream::ReadStream::read_buf"}
@@ -141,6 +141,29 @@ def window_of(e, depth=0):
     return None
 
 
+def masked_len_threshold(e):
+    """e is `len(W) & !m` (m = 2^k - 1) or `len(W) / c`: e == 0 <=> len(W) < m + 1 resp. < c.  Returns (W, threshold)."""
+    p = peel(e, through_try=False)
+    if p.k == "bin" and p.op == "BitAnd":
+        for x, y in ((p.a, p.b), (p.b, p.a)):
+            w = len_of_window(x)
+            m = peel(y, through_try=False)
+            if w and m.k == "un" and m.op == "Not":
+                mm = peel(m.a, through_try=False)
+                if mm.k == "const" and isinstance(mm.v, int) and (mm.v + 1) & mm.v == 0:
+                    return w, mm.v + 1
+            if w and m.k == "const" and isinstance(m.v, int) and m.v > 0:
+                inv = (~m.v) & 0xFFFFFFFFFFFFFFFF
+                if (inv + 1) & inv == 0 and inv < 2 ** 32:
+                    return w, inv + 1
+    if p.k == "bin" and p.op == "Div":
+        w = len_of_window(p.a)
+        c = peel(p.b, through_try=False)
+        if w and c.k == "const" and isinstance(c.v, int) and c.v >= 1:
+            return w, c.v
+    return None
+
+
 def len_of_window(e):
     p = peel(e, through_try=False)
     if p.k == "call" and p.args and (p.q or "").split("::")[-1] in ("len", "is_empty"):
@@ -157,7 +180,13 @@ def short_window_fact(fact):
             return window_of(e.args[0]) if e.args else None
         return None
     if rel == "IntEq" and fact[2] == 0:
-        return len_of_window(fact[1])
+        mt = masked_len_threshold(fact[1])
+        return len_of_window(fact[1]) or (mt[0] if mt else None)
+    if rel == "Eq":
+        for x, y in ((fact[1], fact[2]), (fact[2], fact[1])):
+            mt = masked_len_threshold(x)
+            if mt and _is_zero(y):
+                return mt[0]
     if rel in ("Eq", "Lt", "Le"):
         w = len_of_window(fact[1])
         if w and (rel != "Eq" or _is_zero(fact[2])) and not len_of_window(fact[2]):
@@ -166,6 +195,53 @@ def short_window_fact(fact):
         w = len_of_window(fact[2])
         if w and (rel != "Eq" or _is_zero(fact[1])) and not len_of_window(fact[1]):
             return w
+    return None
+
+
+def nonempty_windows(body, bb):
+    """window fields known non-empty at bb (a dominating `!w.is_empty()` / `w.len() != 0` / `w.len() > c` edge)"""
+    out = set()
+    for f in facts_at(body, bb):
+        rel = f[0]
+        w = None
+        if rel == "Bool" and f[2] is False and (f[1].q or "").split("::")[-1] == "is_empty" and f[1].args:
+            w = window_of(f[1].args[0])
+        elif rel == "IntNe" and f[2] == 0:
+            w = len_of_window(f[1])
+        elif rel == "Ne":
+            w = (len_of_window(f[1]) if _is_zero(f[2]) else None) or (len_of_window(f[2]) if _is_zero(f[1]) else None)
+        elif rel == "Gt":
+            w = len_of_window(f[1])
+        elif rel == "Lt":
+            w = len_of_window(f[2])
+        if w:
+            out.add(w[0])
+    return out
+
+
+def several_windows_short_fact(fact):
+    """fact `X == 0` / `X < c` where X is a minimum (min()/fold with a min closure) over len() of several windows:
+    returns the set of window fields, else None"""
+    rel = fact[0]
+    xs = []
+    if rel == "IntEq" and fact[2] == 0:
+        xs = [fact[1]]
+    elif rel == "Eq":
+        xs = [fact[1]] if _is_zero(fact[2]) else ([fact[2]] if _is_zero(fact[1]) else [])
+    elif rel in ("Lt", "Le"):
+        xs = [fact[1]]
+    elif rel in ("Gt", "Ge"):
+        xs = [fact[2]]
+    for x in xs:
+        p = peel(x, through_try=False)
+        if p.k == "call" and ((p.q in MIN_CALLS or p.rq in MIN_CALLS) or (p.q or "").split("::")[-1] in ("fold", "min")):
+            fields = set()
+            for y in walk(p):
+                w = len_of_window(y)
+                if w:
+                    fields.add(w[0])
+            if len(fields) >= 2:
+                return fields
     return None
 
 
@@ -196,7 +272,19 @@ def rule_r3(facts, col, bodies=None):
                 continue
             w = short_window_fact(fact)
             if w is None:
-                col.silent("C09.R3", key, body.where(bb), "controlling condition is not a plain 'window is short' test")
+                ws = several_windows_short_fact(fact)
+                if ws:
+                    ws = ws - nonempty_windows(body, bb)
+                if ws and len(ws) == 1 and tgt in ws:
+                    col.ok("C09.R3", key, body.where(bb), "min over windows is 0 and every other window was found non-empty: self.%s is the short one" % tgt)
+                elif ws and len(ws) >= 2:
+                    col.bad("C09.R3", key, body.where(bb),
+                            "work() only established that ONE OF the windows %s is empty/short (a min/fold over their lengths) yet always "
+                            "reports waiting for self.%s: whenever another one is the short one the wait is misdirected (satisfied at "
+                            "once: idle spin; or on an ended stream: block retired with input pending)" % (sorted(ws), tgt),
+                            {"windows": sorted(ws), "waits_on": tgt})
+                else:
+                    col.silent("C09.R3", key, body.where(bb), "controlling condition is not a plain 'window is short' test")
                 continue
             if w[0] == tgt:
                 col.ok("C09.R3", key, body.where(bb), "found %s window of self.%s short, waits on self.%s" % (w[1], w[0], tgt))
@@ -210,6 +298,13 @@ def rule_r3(facts, col, bodies=None):
 def short_window_threshold(fact):
     """(window, threshold_expr, strict) for facts `len(W) < X` / `X > len(W)` / `len(W) <= X`; None otherwise."""
     rel = fact[0]
+    if rel in ("Eq", "IntEq"):
+        cands = [(fact[1], fact[2])] if rel == "IntEq" else [(fact[1], fact[2]), (fact[2], fact[1])]
+        for x, y in cands:
+            mt = masked_len_threshold(x)
+            zero = (y == 0) if rel == "IntEq" else _is_zero(y)
+            if mt and zero and mt[1] > 1:
+                return mt[0], E("const", v=mt[1], ty="usize"), True
     if rel in ("Lt", "Le"):
         w = len_of_window(fact[1])
         if w and not len_of_window(fact[2]):
